@@ -166,9 +166,8 @@ def eval_pred(model, module, e, rep, env, depth=0):
             for p, a in zip(params, e.args):
                 if isinstance(a, ast.Name) and env.get(a.id) == "obj":
                     nenv[p] = "obj"
-            rets = [s.value for s in ast.walk(f.node) if isinstance(s, ast.Return) and s.value is not None]
-            if len(rets) == 1 and nenv:
-                return eval_pred(model, f.module, rets[0], rep, nenv, depth + 1)
+            if nenv:
+                return _eval_body(model, f.module, list(f.node.body), rep, nenv, depth + 1)
             return ID
         return ID
     if isinstance(e, (ast.Compare, ast.Attribute, ast.Subscript)):
@@ -177,6 +176,32 @@ def eval_pred(model, module, e, rep, env, depth=0):
             if isinstance(n, ast.Name) and env.get(n.id) == "obj":
                 return ID
         return ID
+    return ID
+
+
+def _eval_body(model, module, stmts, rep, env, depth):
+    """3-valued result of a helper predicate written as statements: guard clauses / if-else with returns.
+    Anything else (assignments, loops, ...) makes the result instance dependent (ID) - never T/F by guessing."""
+    if depth > 12:
+        return ID
+    if not stmts:
+        return F  # falls off the end: returns None
+    st, rest = stmts[0], stmts[1:]
+    if isinstance(st, ast.Expr) and isinstance(st.value, ast.Constant):
+        return _eval_body(model, module, rest, rep, env, depth)
+    if isinstance(st, ast.Pass):
+        return _eval_body(model, module, rest, rep, env, depth)
+    if isinstance(st, ast.Return):
+        return F if st.value is None else eval_pred(model, module, st.value, rep, env, depth + 1)
+    if isinstance(st, ast.If):
+        c = eval_pred(model, module, st.test, rep, env, depth + 1)
+        if c == T:
+            return _eval_body(model, module, list(st.body) + rest, rep, env, depth + 1)
+        if c == F:
+            return _eval_body(model, module, list(st.orelse) + rest, rep, env, depth + 1)
+        a = _eval_body(model, module, list(st.body) + rest, rep, env, depth + 1)
+        b = _eval_body(model, module, list(st.orelse) + rest, rep, env, depth + 1)
+        return a if (a == b and a in (T, F)) else ID
     return ID
 
 
@@ -320,19 +345,71 @@ def analyse_validator(model, func, resolvers):
             return test.comparators[0].value
         return None
 
+    # dispatch tables:  handler = TABLE.get(tag) / TABLE[tag];  if handler is None: raise ...;  handler(data)
+    # with TABLE a module-level dict display {"TAG": private function}: one branch per key, analysed in the helper
+    dispatch_vars = {}  # local name -> {tag: FuncInfo}
+    for n in ast.walk(func.node):
+        if isinstance(n, ast.Assign) and len(n.targets) == 1 and isinstance(n.targets[0], ast.Name):
+            v = n.value
+            tbl = None
+            if isinstance(v, ast.Call) and isinstance(v.func, ast.Attribute) and v.func.attr == "get" and isinstance(v.func.value, ast.Name) and len(v.args) >= 1 and isinstance(v.args[0], ast.Name) and v.args[0].id in tagvars:
+                if len(v.args) == 1 or (isinstance(v.args[1], ast.Constant) and v.args[1].value is None):
+                    tbl = v.func.value.id
+            elif isinstance(v, ast.Subscript) and isinstance(v.value, ast.Name) and isinstance(v.slice, ast.Name) and v.slice.id in tagvars:
+                tbl = v.value.id
+            if tbl is not None:
+                r = model.resolve(func.module, tbl)
+                if r is not None and r[0] == "var" and isinstance(r[2], ast.Dict) and all(isinstance(k, ast.Constant) for k in r[2].keys):
+                    table = {}
+                    for k, val in zip(r[2].keys, r[2].values):
+                        fr = model.resolve(func.module, val.id) if isinstance(val, ast.Name) else None
+                        if fr is not None and fr[0] == "func":
+                            table[k.value] = fr[-1]
+                    if len(table) == len(r[2].keys):
+                        dispatch_vars[n.targets[0].id] = table
+
+    def else_test(test, pol):
+        """The test (with this polarity) means: no table entry / no tag matched."""
+        if isinstance(test, ast.Compare) and len(test.ops) == 1 and isinstance(test.left, ast.Name) and test.left.id in dispatch_vars \
+                and isinstance(test.comparators[0], ast.Constant) and test.comparators[0].value is None:
+            return (isinstance(test.ops[0], ast.Is) and pol) or (isinstance(test.ops[0], ast.IsNot) and not pol)
+        if isinstance(test, ast.UnaryOp) and isinstance(test.op, ast.Not):
+            return else_test(test.operand, not pol)
+        if isinstance(test, ast.Name) and test.id in dispatch_vars:
+            return not pol
+        return False
+
     for n in ast.walk(func.node):
         if isinstance(n, ast.If):
             t = tag_test(n.test)
             if t is not None:
                 info.tag_literals.append((t, n))
+    helper_names = {f.name for tbl in dispatch_vars.values() for f in tbl.values()}
+    for tbl in dispatch_vars.values():
+        for t, f in tbl.items():
+            info.tag_literals.append((t, f.node))
     events = []
+
+    def is_event(n, fname):
+        return isinstance(n, ast.Raise) or isinstance(n, ast.Return) or (isinstance(n, ast.Call) and isinstance(n.func, ast.Name) and (n.func.id == fname or n.func.id in helper_names))
+
     for n in ast.walk(func.node):
-        if isinstance(n, ast.Raise) or (isinstance(n, ast.Call) and isinstance(n.func, ast.Name) and n.func.id == func.name) or isinstance(n, ast.Return):
+        if is_event(n, func.name):
+            if isinstance(n, ast.Call) and n.func.id in dispatch_vars:
+                continue
             conds = _conds_of(n, func.node)
             pos_tags = [tag_test(t) for t, pol in conds if pol and tag_test(t) is not None]
             neg_tags = [tag_test(t) for t, pol in conds if not pol and tag_test(t) is not None]
-            branch = pos_tags[0] if pos_tags else ("<else>" if neg_tags else "<top>")
+            is_else = any(else_test(t, pol) for t, pol in conds)
+            branch = pos_tags[0] if pos_tags else ("<else>" if (neg_tags or is_else) else "<top>")
+            conds = [(t, pol) for t, pol in conds if not else_test(t, pol) and not else_test(t, not pol)]
             events.append((n, branch, conds, neg_tags))
+    for tbl in dispatch_vars.values():
+        for t, f in tbl.items():
+            for n in ast.walk(f.node):
+                if is_event(n, func.name):
+                    events.append((n, t, _conds_of(n, f.node), []))
+            info.branches.setdefault(t, {"raises": [], "recurses": False, "returns": False})
     for n, branch, conds, neg_tags in events:
         b = info.branches.setdefault(branch, {"raises": [], "recurses": False, "returns": False})
         if isinstance(n, ast.Raise):
